@@ -109,7 +109,13 @@ def roundtrip(ctx, obj, units, label, nd_exact=True):
                      % (label, units, tag, a, b, text))
 
     cmp('T_ref', obj.T_ref, back.T_ref, False)
-    cmp('H_ref', obj.ND_H_ref, back.ND_H_ref, nd_exact and not units.get('molar enthalpy'))
+    if units.get('molar enthalpy') and obj.ND_H_ref is not None and back.ND_H_ref is not None \
+            and isinstance(back.ND_H_ref, (int, float, np.floating)):
+        # the dimensional value H = (H/RT_ref) R T_ref is what was written to six digits; the
+        # reference temperature it is divided by on reading was itself written to six digits
+        cmp('H_ref', obj.ND_H_ref * obj.T_ref, back.ND_H_ref * back.T_ref, False)
+    else:
+        cmp('H_ref', obj.ND_H_ref, back.ND_H_ref, nd_exact and not units.get('molar enthalpy'))
     cmp('S_ref', obj.ND_S_ref, back.ND_S_ref, nd_exact and not units.get('molar entropy'))
     r0, r1 = obj.get_range(), back.get_range()
     if (r0 is None) != (r1 is None):
